@@ -1,13 +1,8 @@
 """C07 — Tile filters never drop a tile holding data: filtered sampling leaves no holes."""
 PROPERTY = "C07"
 LEVEL = "other"
-CONTRACT_MODULES = ["contracts.specfuns", "contracts.lemmas_desc", "contracts.pyramid", "contracts.parallel", "contracts.walk",
-                    "contracts.reducer", "contracts.lemmas_embed", "contracts.generator", "contracts.image", "contracts.merge",
-                    "contracts.pyramidio", "contracts.study", "contracts.multitan", "contracts.toastsample", "contracts.toastgeom",
-                    "contracts.filters", "contracts.toastgen", "contracts.fitstiler"]
-FUNCTIONS = ["toasty.samplers._latlon_tile_filter", "toasty.samplers.ChunkedPlateCarreeSampler._chunk_bounds",
-             "toasty.samplers.ChunkedPlateCarreeSampler.filter",
-             "toasty.toast._postfix_corner", "toasty.toast.generate_tiles_filtered", "toasty.fits_tiler.FitsTiler._tile_toast"]
+CONTRACT_MODULES = ['contracts.specfuns', 'contracts.lemmas_desc', 'contracts.pyramid', 'contracts.parallel', 'contracts.walk', 'contracts.reducer', 'contracts.lemmas_embed', 'contracts.generator', 'contracts.image', 'contracts.merge', 'contracts.pyramidio', 'contracts.study', 'contracts.multitan', 'contracts.toastsample', 'contracts.toastgeom', 'contracts.filters', 'contracts.toastgen', 'contracts.fitstiler', 'contracts.paths', 'contracts.datarange', 'contracts.builderc', 'contracts.multiwcs']
+FUNCTIONS = ['toasty.samplers._latlon_tile_filter', 'toasty.samplers.ChunkedPlateCarreeSampler._chunk_bounds', 'toasty.samplers.ChunkedPlateCarreeSampler.filter', 'toasty.toast._postfix_corner', 'toasty.toast.generate_tiles_filtered', 'toasty.fits_tiler.FitsTiler._tile_toast', 'toasty.toast.sample_layer_filtered', 'toasty.builder.Builder.toast_base', 'toasty.pyramid.Pyramid._generator']
 LEMMAS = []
 SLOW = ()
 TRUSTED_BASE = ["pyvc VC generator; z3/cvc5", "compiled tile_intersects_latlon_bbox (assumed contract)", "np.asarray copy semantics",
